@@ -187,8 +187,9 @@ def mask_time(text):
 def parse_header(text):
     """{ENTITY: [parameters]} of the header section, or an error string"""
     try:
-        a = text.index("HEADER;") + 7
-        b = text.index("ENDSEC;", a)
+        a = W.find_keyword(text, "HEADER")
+        b = W.find_keyword(text, "ENDSEC", a)
+        b = text.rindex("ENDSEC", a, b)
         p = _P(text[a:b])
         out = {}
         while p.peek():
@@ -260,10 +261,12 @@ class _P(G._P):
 def parse_p21(text):
     """(header text, [Inst]) — p21_gen.parse_p21 with the grammar-aware string scanner"""
     import re as _re
-    d = text.index("DATA;")
+    d = W.data_start(text)
+    if d < 0:
+        raise ValueError("no DATA section")
     header = text[:d]
     p = _P(text)
-    p.i = d + 5
+    p.i = d
     out = []
     while True:
         p.peek()
